@@ -188,7 +188,7 @@ Proof.
       * exists (get_str "$ref" m), base. exact Hn.
       * eapply is_circular_fresh. exact Ec.
       * exact H.
-    + destruct (o_cont OP); discriminate.
+    + destruct (o_cont OP); [destruct (dfail lg)|]; discriminate.
     + exfalso. eapply resolve_not_oof. exact Er.
     + discriminate.
 Qed.
@@ -361,10 +361,15 @@ Proof.
     constructor; cbn [log cache]; try rewrite Hsv; assumption.
 Qed.
 
+Lemma set_dfail_inv s b : P s -> P (set_dfail s b).
+Proof. intros [H1 H2 H3 H4]. constructor; assumption. Qed.
+
 Lemma resolve_finish_inv ref kind toks s' d : P s' -> pres_all (resolve_finish E ref kind toks s' d).
 Proof.
-  intros Hs'. unfold resolve_finish. destruct (if String.eqb ref "" then Some d else ptr_get toks d) as [res|]; [|exact Hs'].
-  destruct res; try exact Hs'. destruct (norm E (JObj m) (TNamed kind)); cbn; auto.
+  intros Hs'. unfold resolve_finish.
+  destruct (if String.eqb ref "" then Some d else ptr_get toks d) as [res|]; [|apply set_dfail_inv; exact Hs'].
+  destruct res; try (apply set_dfail_inv; exact Hs').
+  destruct (norm E (JObj m) (TNamed kind)); cbn; try exact I; apply set_dfail_inv; exact Hs'.
 Qed.
 
 Lemma resolve_inv s rroot ref base kind : P s -> pres_all (resolve E docs cwd live s rroot ref base kind).
@@ -435,7 +440,7 @@ Proof.
     + pose proof (transitive_all s2 rroot base (get_str "$ref" m) Hr) as Ht.
       unfold ebind. destruct (transitive s2 rroot base (get_str "$ref" m)) as [rc|sf| |]; try exact I; [|exact Ht].
       apply Hfollow. exact Hr.
-    + destruct (o_cont OP); exact Hr.
+    + destruct (o_cont OP); [|exact Hr]. destruct (dfail sf); [apply set_dfail_inv; exact Hr|exact Hr].
 Qed.
 
 (* the generic folds with the stronger "errors too" predicate; [Q] restricts the elements W must handle *)
@@ -518,3 +523,79 @@ Proof.
   apply walk_inv; [|exact Hs]. intros s' ps rr b t Hs'. apply IH. exact Hs'.
 Qed.
 End Inv.
+
+(* ---------- resolution (C05) ---------- *)
+(* RFC 6901 escaping of one token, and its inverse as the resolver applies it *)
+Fixpoint escape_tok (s : chars) : chars :=
+  match s with
+  | [] => []
+  | c :: r => if Ascii.eqb c "~" then "~"%char :: "0"%char :: escape_tok r
+              else if Ascii.eqb c "/" then "~"%char :: "1"%char :: escape_tok r
+              else c :: escape_tok r
+  end.
+
+Lemma unescape_escape_tok : forall s, unescape_tok (escape_tok s) = s.
+Proof.
+  induction s as [|c r IH]; [reflexivity|]. cbn [escape_tok].
+  destruct (Ascii.eqb c "~") eqn:E1.
+  - apply Ascii.eqb_eq in E1. subst c. cbn [unescape_tok]. rewrite IH. reflexivity.
+  - destruct (Ascii.eqb c "/") eqn:E2.
+    + apply Ascii.eqb_eq in E2. subst c. cbn [unescape_tok]. rewrite IH. reflexivity.
+    + (* an ordinary character is copied; it is not "~" so no escape starts here *)
+      assert (H : forall t, unescape_tok (c :: t) = c :: unescape_tok t).
+      { intros t. destruct c as [b0 b1 b2 b3 b4 b5 b6 b7].
+        destruct b0, b1, b2, b3, b4, b5, b6, b7; try reflexivity; discriminate E1. }
+      rewrite H, IH. reflexivity.
+Qed.
+
+(* a token written with ~0/~1 escapes never contains "/": splitting the pointer at "/" recovers the tokens *)
+Lemma escape_tok_no_slash : forall s, mem_char "/"%char (escape_tok s) = false.
+Proof.
+  induction s as [|c r IH]; [reflexivity|]. cbn [escape_tok].
+  destruct (Ascii.eqb c "~") eqn:E1; [exact IH|].
+  destruct (Ascii.eqb c "/") eqn:E2; [exact IH|].
+  unfold mem_char in *. cbn [existsb]. rewrite IH. unfold ceq. rewrite Ascii.eqb_sym, E2. reflexivity.
+Qed.
+
+(* evaluation of a pointer: one member / element per token, an error as soon as a token designates nothing *)
+Lemma ptr_get_nil j : ptr_get [] j = Some j.
+Proof. reflexivity. Qed.
+Lemma ptr_get_member t r m : ptr_get (t :: r) (JObj m) = match assoc t m with Some v => ptr_get r v | None => None end.
+Proof. reflexivity. Qed.
+Lemma ptr_get_scalar t r j : (forall m, j <> JObj m) -> (forall l, j <> JArr l) -> ptr_get (t :: r) j = None.
+Proof. intros H1 H2. destruct j; try reflexivity; [exfalso; eapply H2; reflexivity|exfalso; eapply H1; reflexivity]. Qed.
+
+Section ResolveSpec.
+Variable E : env.
+Variable docs : list (string * json).
+Variable cwd : string.
+Variable live : option (string * json).
+
+(* a successful resolution returns the typed decoding of exactly the designated sub-document — never a
+   zero value: the pointer designated an OBJECT [res] of the document and [v] is its decoding *)
+Theorem resolve_finish_done ref kind toks s' data s'' v :
+  resolve_finish E ref kind toks s' data = Done (s'', v) ->
+  exists res m, res = JObj m /\ (if String.eqb ref "" then Some data else ptr_get toks data) = Some res
+                /\ norm E res (TNamed kind) = ROk v.
+Proof.
+  unfold resolve_finish. destruct (if String.eqb ref "" then Some data else ptr_get toks data) as [res|]; [|discriminate].
+  destruct res; try discriminate. destruct (norm E (JObj m) (TNamed kind)) eqn:En; try discriminate.
+  intros H. inversion H; subst. exists (JObj m), m. repeat split; assumption.
+Qed.
+
+(* a reference with a URI part: the document is the one normalizeURI designates (fragment removed) *)
+Theorem resolve_by_url s rroot ref base kind r full :
+  new_ref (s2l ref) = POk r -> is_root r || has_fragment_only r = false ->
+  nuri ref base = POk full ->
+  resolve E docs cwd live s rroot ref base kind
+  = ebind (load docs cwd s full) (fun sd => resolve_finish E ref kind (ptr_tokens (u_frag (r_url r))) (fst sd) (snd sd)).
+Proof.
+  intros Hr Hl Hn. unfold resolve. rewrite Hr. cbn [pbind]. rewrite Hl, Hn. reflexivity.
+Qed.
+
+(* the answer does not depend on how the root is supplied when the reference has a URI part *)
+Theorem resolve_root_irrelevant s rroot rroot' ref base kind r :
+  new_ref (s2l ref) = POk r -> is_root r || has_fragment_only r = false ->
+  resolve E docs cwd live s rroot ref base kind = resolve E docs cwd live s rroot' ref base kind.
+Proof. intros Hr Hl. unfold resolve. rewrite Hr. cbn [pbind]. rewrite Hl. reflexivity. Qed.
+End ResolveSpec.
